@@ -104,6 +104,9 @@ func jobTimeout(j Job) int {
 	if j.Hist != nil && j.Hist.TimeoutMs > 0 {
 		return j.Hist.TimeoutMs
 	}
+	if j.Stress != nil && j.Stress.TimeoutMs > 0 {
+		return j.Stress.TimeoutMs
+	}
 	if j.Iso != nil && j.Iso.TimeoutMs > 0 {
 		return j.Iso.TimeoutMs
 	}
@@ -399,6 +402,20 @@ var totals = map[string]int{}
 func addCase(w *lib.Writer, j Job, r Result) {
 	id := w.NextID()
 	switch j.Kind {
+	case "stress":
+		c := lib.Case{Input: j, KF: j.KF, Class: "stress", Observed: map[string]any{"status": r.Status, "msg": trunc(r.Msg, 800), "stress": r.Stress}}
+		if r.Status == "ok" && r.Stress != nil {
+			o := r.Stress
+			c.Coq = fmt.Sprintf("CStress %d %d %d %d %d", o.Sent, o.Recvd, o.Dups, o.Early, o.Disorder)
+			c.Nontrivial = j.Stress.Consumers >= 2 && o.Recvd > 0
+			totals["stress_values"] += int(o.Sent)
+			w.Add(c)
+			return
+		}
+		c.Class += "-" + r.Status
+		c.Coq = failingTerm
+		w.Add(c)
+		w.GoFail(id, "stress run: "+r.Status+": "+trunc(r.Msg, 1200))
 	case "share":
 		// the race on the shared table is the observation (known finding C13-1); a crash of the
 		// runtime ("concurrent map read and map write") is the same race seen by the runtime
